@@ -426,6 +426,17 @@ int main()
       if(x.size() == 0) bad = true;
       else { if(&x.back() != &((const A&)x).back() || &x.back() != (int*)x + x.size() - 1) printf("back-differs "); setRet(x.back()); show = 5; }
     }
+    else if(hxIs(l, "aeq", 2))
+    {
+      unsigned long ww = hxNum(l, 2);
+      if(ww >= (unsigned long)NV) bad = true;
+      else
+      {
+        bool e = *av[v] == *av[ww], ne = *av[v] != *av[ww];
+        if(e == ne) printf("eq-inconsistent ");
+        setRet(e ? 1 : 0);
+      }
+    }
     else bad = true;
 
     if(bad) { printf("bad-op"); hxEndLine(); continue; }
